@@ -217,7 +217,10 @@ class Gen(object):
                 st[key] = {"StartAt": s0, "States": ss}
                 st["ItemsPath"] = rng.choice(["$.items", "$.items", "$.a.c", "$", "$.n"])
                 if rng.random() < 0.4:
-                    st[rng.choice(["ItemSelector", "Parameters"])] = self.template(True)
+                    sel = self.template(True)
+                    if rng.random() < 0.5:      # the item's position and value, so that every iteration's input tells which item it got
+                        sel["ix.$"], sel["iv.$"] = "$$.Map.Item.Index", "$$.Map.Item.Value"
+                    st[rng.choice(["ItemSelector", "Parameters"])] = sel
                 if rng.random() < 0.5:
                     st["MaxConcurrency"] = rng.choice([0, 1, 2, 3])
                 if rng.random() < self.retry_rate * 0.6:
